@@ -47,7 +47,14 @@ ASSUMPTIONS = [
     'through alternatives is left open)',
     'SDP: search_attributes results are compared after dropping records with no selected attribute, '
     'order-insensitively over records; get_attributes for an unknown handle may raise or return nothing',
-    'SDP: response PDUs larger than the client MTU are counted (label sdp:pdu_exceeds_mtu), not asserted',
+    'SDP: response PDUs larger than the client MTU are counted (label sdp:pdu_exceeds_mtu), not asserted; the '
+    'server-side MTU is at least the largest request of the case; controllers use 1021-byte ACL buffers (ACL '
+    'fragmentation is C05\'s subject); a response lost by the carrier (virtual controller / HCI raising) is '
+    'reported under sdp/no_answer/carrier/<site>',
+    'AVCTP: when the assembler rejects the specification\'s packet layout (known finding F19d: it expects the PID '
+    'in continue/end packets too) that violation is recorded once by a probe and the generated cases are sent '
+    'in the layout the implementation expects (counted under excluded_by_known_finding; signatures then start '
+    'with avctp_pid_in_every_packet/), so reassembly and fault handling stay exercised',
     'AVDTP/AVCTP faults: the message the fault belongs to may be delivered intact or not at all; every '
     'other message of the sequence must be delivered byte-identical exactly once, in order',
     'stream: start in CONFIGURED may either be refused or auto-open (documented API behaviour); abort in '
@@ -548,7 +555,23 @@ def sdp_finalize(drawn) -> dict:
     _cap_mtus(case)
     _pad(case, drawn['pad'])
     _cap_mtus(case)
+    # the server's MTU (what clients may send) is never below the largest request of the case
+    case['server_mtu'] = max([case['server_mtu']] + [_request_size(q) for c in clients for q in c['queries']])
     return case
+
+
+def _request_size(q) -> int:
+    def pattern(p):
+        return 2 + sum(1 + w for _i, w in p)
+
+    def idlist(ids):
+        return 3 + sum(5 if isinstance(e, list) else 3 for e in ids)
+
+    if q[0] == 'ss':
+        return 5 + pattern(q[1]) + 2 + 1
+    if q[0] == 'ga':
+        return 5 + 4 + 2 + idlist(q[2]) + 1
+    return 5 + pattern(q[1]) + 2 + idlist(q[2]) + 1
 
 
 def _cap_mtus(case) -> None:
@@ -1676,10 +1699,10 @@ def run(ctx) -> None:
     continuation_limit()
     layout = avctp_probe(ctx)
     ctx.extra['avctp_sender_layout'] = layout
-    ctx.hyp('sdp', lambda d: run_sdp_case(ctx, sdp_finalize(d)), sdp_strategy(), max_examples=ctx.n(400, 16000))
-    ctx.hyp('avdtp', lambda c: run_avdtp_case(ctx, c), av_strategy('avdtp'), max_examples=ctx.n(2000, 200000))
-    ctx.hyp('avctp', lambda c: run_avctp_case(ctx, dict(c, layout=layout)), av_strategy('avctp'), max_examples=ctx.n(2000, 200000))
-    ctx.hyp('stream', lambda c: run_stream_case(ctx, c), stream_strategy(), max_examples=ctx.n(300, 8000))
+    ctx.hyp('sdp', lambda d: run_sdp_case(ctx, sdp_finalize(d)), sdp_strategy(), max_examples=ctx.n(400, 8000))
+    ctx.hyp('avdtp', lambda c: run_avdtp_case(ctx, c), av_strategy('avdtp'), max_examples=ctx.n(2000, 150000))
+    ctx.hyp('avctp', lambda c: run_avctp_case(ctx, dict(c, layout=layout)), av_strategy('avctp'), max_examples=ctx.n(2000, 150000))
+    ctx.hyp('stream', lambda c: run_stream_case(ctx, c), stream_strategy(), max_examples=ctx.n(300, 5000))
     for label, n in (
         ('sdp:clients:1', 20), ('sdp:clients:2', 10), ('sdp:clients:3', 10),
         ('sdp:continuation', 20), ('sdp:ss_continuation', 3), ('sdp:ga_continuation', 5), ('sdp:sa_continuation', 5),
